@@ -67,7 +67,7 @@ instance toy : Scalar Int where
   isNaN := fun _ => false
   nan := 0
   ofDec := fun m k => (m : Int) / (10 ^ k : Nat)
-  big := 10 ^ 300
+  inf := 10 ^ 300
 
 def trEx : Tr Int := ⟨3, [1, 2, 3], [0, 0, 0], [0, 0, 0], [0, 10, 20], [(['a'], [1, -2, 4]), (['b'], [2, 2, 5])]⟩
 
